@@ -83,9 +83,9 @@ func (element *Element) addTermsToLoadVector(sysVector vec.MutableVector) {
 		globalTorsor = node.NetLocalLoadTorsor().ProjectedToGlobal(refFrame)
 		dofs = node.DegreesOfFreedomNum()
 
-		sysVector.SetValue(dofs[0], globalTorsor.Fx())
-		sysVector.SetValue(dofs[1], globalTorsor.Fy())
-		sysVector.SetValue(dofs[2], globalTorsor.Mz())
+		sysVector.SetValue(dofs[0], sysVector.Value(dofs[0])+globalTorsor.Fx())
+		sysVector.SetValue(dofs[1], sysVector.Value(dofs[1])+globalTorsor.Fy())
+		sysVector.SetValue(dofs[2], sysVector.Value(dofs[2])+globalTorsor.Mz())
 	}
 }
 
